@@ -354,6 +354,7 @@ pub fn generate_c16(seed: u64, run: u64, corpus: &Corpus, tier: Tier, stats: &mu
             };
         }
     };
+    let content_kind = kind;
     let mut file = SimFile::new(&path, bytes.clone());
     match rng.below(40) {
         0 | 1 => {
@@ -364,7 +365,7 @@ pub fn generate_c16(seed: u64, run: u64, corpus: &Corpus, tier: Tier, stats: &mu
             file.readable = false;
             kind = "unreadable";
         }
-        3 => {
+        3..=5 => {
             file.writable = false;
             kind = "read_only";
         }
@@ -389,9 +390,14 @@ pub fn generate_c16(seed: u64, run: u64, corpus: &Corpus, tier: Tier, stats: &mu
         cases.push(c);
     }
     // the world files mode leaves behind: files mode again and check mode on the result
-    if kind == "decodable" && reference.exit == Exit::Code(0) && reference.stdout != bytes {
+    if content_kind == "decodable" && file.exists && reference.exit == Exit::Code(0) && reference.stdout != bytes {
         for mode in [Mode::Files, Mode::Check] {
-            cases.push(base_case("C16", seed, run, &opts, mode, vec![SimFile::new(&path, reference.stdout.clone())]));
+            // (same permissions as the original: a read-only file that is already formatted is
+            // fine for check mode and a failure for files mode)
+            let mut f = SimFile::new(&path, reference.stdout.clone());
+            f.readable = file.readable;
+            f.writable = file.writable;
+            cases.push(base_case("C16", seed, run, &opts, mode, vec![f]));
         }
         // ... and the same formatted text with a trailing comment spelled in a non-canonical
         // byte form of a legacy encoding
